@@ -85,6 +85,30 @@ UNARY = ["Relu", "Tanh", "Sigmoid", "Neg", "Abs", "Exp", "Identity", "Elu", "Lea
 CHAIN_ONLY = ["Relu", "Tanh", "Sigmoid", "Identity", "Elu", "LeakyRelu", "Gelu"]
 
 
+# unary, shape-preserving operators that are NOT layout-invariant (they act along an axis); they
+# must never be folded across — part of every chain pool so that a widened "elementwise" set in
+# the code is exercised at once
+AXIS_SENSITIVE = {"Softmax": {"axis": -1}, "LogSoftmax": {"axis": -1}, "Hardmax": {"axis": -1},
+                  "LpNormalization": {"axis": -1, "p": 2}}
+KNOWN_UNARY_ATTRS = {"LeakyRelu": {"alpha": 0.1}, "Elu": {"alpha": 0.1}, "Selu": {}, "Celu": {"alpha": 1.0},
+                     "ThresholdedRelu": {"alpha": 0.5}, "HardSigmoid": {}, "Softplus": {}, "Softsign": {},
+                     "Mish": {}, "Erf": {}, "Sign": {}, "Floor": {}, "Ceil": {}, "Round": {}, "Reciprocal": {},
+                     "Sin": {}, "Cos": {}, "Atan": {}, "HardSwish": {}, "Gelu": {}, "Swish": {},
+                     **AXIS_SENSITIVE}
+
+
+def code_unary_ops() -> list[str]:
+    """unary operators the CODE currently considers foldable (read live, so that a change of the
+    sets changes what is generated)"""
+    try:
+        import jax2onnx.converter.ir_optimizations as opt
+        names = set(opt.ALLOWED_ELEMWISE) | set(opt.ELEMENTWISE_UNARY_OPS)
+    except Exception:
+        names = set()
+    skip = {"Cast", "CastLike", "Not", "Max", "Min", "Clip", "Log", "Sqrt"}
+    return sorted(n for n in names if n not in skip)
+
+
 def _dims(rng: Rng, rank: int) -> list[int]:
     pool = [2, 3, 5, 7, 4, 6]
     ds = rng.sample(pool, rank)
@@ -134,12 +158,23 @@ def gen_transpose_chain(rng: Rng) -> tuple[GB, dict]:
     for _ in range(k):
         c = rng.randint(0, 99)
         if c < 55:
-            op = rng.choice(CHAIN_ONLY if rng.chance(0.7) else UNARY)
+            r0 = rng.randint(0, 99)
+            if r0 < 55:
+                op = rng.choice(CHAIN_ONLY)
+            elif r0 < 70:
+                op = rng.choice(UNARY)
+            elif r0 < 88:
+                pool = code_unary_ops()
+                op = rng.choice(pool) if pool else "Relu"
+            else:
+                op = rng.choice(sorted(AXIS_SENSITIVE))
+            if op in AXIS_SENSITIVE:
+                desc["guards"].append("axis_sensitive_op")
             dom = ""
             if rng.chance(0.04):
                 dom = "custom.verif"
                 desc["guards"].append("custom_domain")
-            attrs = {"alpha": 0.1} if op in ("LeakyRelu", "Elu") else {}
+            attrs = dict(KNOWN_UNARY_ATTRS.get(op, {}))
             cur = gb.node(op, [cur], domain=dom, **attrs)
             desc["chain"].append(op)
         elif c < 62:
